@@ -106,7 +106,7 @@ type writeRec struct {
 
 func (c *Ctx) setHeap(st *State, name string, v T, key *T) {
 	st.heaps[name] = v
-	if c.fc != nil && c.fc.RowMajor && c.specMode == 0 && key != nil && strings.HasPrefix(name, "H.") && !c.inUnrollHavoc && os.Getenv("OWVC_NOUH") == "" {
+	if c.fc != nil && c.fc.RowMajor && c.specMode == 0 && key != nil && strings.HasPrefix(name, "H.") && !c.inUnrollHavoc {
 		// general-rank interface model: the slice x.Unroll() returns is either a copy or
 		// x's own storage (the interface does not say which), so after a write to that
 		// object the elements of x are unknown
